@@ -46,29 +46,34 @@ int main( int argc, char** argv )
     parse_args( argc, argv );
     limit_memory_gb( 8 );
     tab();
+    auto mine = []( const char* id ) { return args().prop.empty() || args().prop == id; };
 
-    prop( "C25" ).rule =
+    if ( mine( "C25" )) prop( "C25" ).rule =
         "one evaluation = one (function under test, input) result compared with a bit-by-bit reference, or one (splitter type, source value, cut-width sequence, cut/safe_cut mode) case "
         "whose every returned field, bit_offset, rest_count, eos and the re-assembled source are compared with a little-endian bit-string model. "
         "Exhaustive sub-domains: all 256 bytes for muldiv32_byte/muldiv64_byte and every lookup-table entry at every byte position; thorough tier: ALL 2^32 inputs of every 32-bit function "
         "(quick: 2^24 inputs stratified over every 23-bit prefix and every 23-bit suffix, plus boundary values); 8-bit sources: all 256 values x all cut-width compositions accepted by the splitter; "
         "16-bit sources: all accepted compositions x a source sample, and all 65536 values x all compositions of at most 2 (quick) / 3 (thorough) parts; 32/64/48/160-bit sources and 64-bit function inputs: structured + seeded random. "
         "distinct_nontrivial counts: (function family, high-16-bit input bucket) pairs for 32-bit inputs, distinct structured 64-bit inputs, (msb,lsb,popcount) classes of random 64-bit inputs, "
-        "(splitter type, cut-width sequence, mode) for splitter cases; every case exercises the function, so none is trivial";
-    prop( "C26" ).rule =
+        "(splitter type, cut-width sequence, mode) for splitter cases; every case exercises the function, so none is trivial. "
+        "Sanitizer build: number_splitter widths >= 31 (the int mask computation) are first run in forked probes; a width whose probe dies under UBSan is reported and kept out of the in-process run "
+        "(quick tier probes widths 31,32,33,40,47,48,56,62,63, thorough all); sources of the bit-string/byte splitters end exactly at the end of a heap block so that ASan sees any over-read";
+    if ( mine( "C26" )) prop( "C26" ).rule =
         "one evaluation = one n (the n-th inc() of a fresh counter: slot distinct from all earlier ones, inside level floor(log2 n), complete levels are permutations, literal prefix clause, dec() undoes and re-inc repeats) "
         "or one inc/dec word (exhaustive depth-first enumeration of all Dyck-prefix words up to a fixed length, and long seeded random walks) compared with a stack model; "
         "exhaustive sub-domains: every n up to 2^16 (quick) / 2^20 (thorough), every inc/dec word up to length 20 (quick) / 26 (thorough); for bit_reverse_counter<size_t> and <uint32_t>. "
         "distinct_nontrivial = (counter type, n) pairs plus (counter type, word length, final depth) classes; non-trivial = n >= 5 (the first n where the fill order is not the identity) or words containing a dec";
-    prop( "C27" ).rule =
+    if ( mine( "C27" )) prop( "C27" ).rule =
         "one evaluation = one (bit-reversal algorithm, table size 2^k, hash h) case: regular_hash odd and equal to reference reversal|1, dummy_hash even, dummy(h mod 2^k) < regular(h) < dummy(successor bucket in split order), "
         "parent dummy < child dummy, and the same after the table doubles; or one (k, h) / bucket case of SplitListSet::bucket_no / parent_bucket called through a derived probe; or one real split list whose iteration order is compared with the model. "
-        "Exhaustive sub-domains: all k = 0..63 for each of swar/lookup/muldiv, all 2^16 low hash patterns per k. distinct_nontrivial = (algorithm, k, bucket mod 1024) classes, (k) for the probe, list configurations; non-trivial = k >= 1";
-    prop( "C28" ).rule =
+        "Exhaustive sub-domains: all k = 0..63 for each of swar/lookup/muldiv, all 2^16 low hash patterns per k. distinct_nontrivial = (algorithm, k, bucket mod 1024) classes, (k) for the probe, list configurations; non-trivial = k >= 1. "
+        "Sanitizer build: bucket_no / parent_bucket for 2^30 buckets and more are first run in forked probes (quick tier: 30,31,32,33,40,47,48,56,62,63; thorough: all), a probe killed by UBSan is reported and that size is skipped in-process";
+    if ( mine( "C28" )) prop( "C28" ).rule =
         "one evaluation = one metrics::make(head_bits, array_bits, hash_size) configuration (exhaustive: head_bits 0..hash_bits, array_bits 0..16, hash sizes 1,2,4,8 and the byte-array sizes used below), "
         "or one real FeldmanHashSet<HP> (hash type, head_bits, array_bits) fed with a set of hashes sharing the longest possible prefixes (all values of the last chunk, every single-bit neighbour of a base, all-zeros, all-ones, random): "
         "every distinct hash must insert, an equal hash in another node must be rejected, all must be found, size() exact, get_level_statistics must equal the minimal-trie model. "
-        "distinct_nontrivial = distinct normalised configurations; non-trivial = sets in which at least one slot was expanded (real sets) / every configuration (make)";
+        "distinct_nontrivial = distinct normalised configurations; non-trivial = sets in which at least one slot was expanded (real sets) / every configuration (make). "
+        "Real sets are limited to normalised heads <= 16 bits and skip configurations rejected by the constructor's own is_correct() assertions; make() with a 64-bit head (2^64 not representable) is probed in a forked child in the sanitizer build";
 
     LibInit lib;
     {
@@ -81,11 +86,7 @@ int main( int argc, char** argv )
         c27_all();
         c28_all();
     }
-    for ( const char* id : { "C25", "C26", "C27", "C28" } ) {
-        if ( !args().prop.empty() && args().prop != id ) continue;
-        prop( id ).add_extra( "reports_suppressed_by_gate", 0 );
-    }
-    if ( suppressed().load())
-        prop( args().prop.empty() ? "C25" : args().prop ).add_extra( "reports_suppressed_by_gate", suppressed().load());
+    // occurrences beyond the first dozen per failure class are only counted
+    prop( args().prop.empty() ? "C25" : args().prop ).add_extra( "reports_suppressed_by_gate(all properties of this run)", suppressed().load());
     return finish( "pure" );
 }
